@@ -451,7 +451,9 @@ pub fn run(seed: u64, rounds: u64, max_ops: usize, inject_yields: bool) -> Value
     let mut stats: HashMap<String, u64> = HashMap::new();
     let mut events = 0u64;
     let mut elements = 0u64;
+    let mut rounds_run = 0u64;
     for r in 0..rounds {
+        rounds_run += 1;
         let mix = [Mix::ListConservation, Mix::ListSnapshots, Mix::MapChains, Mix::MapSnapshots, Mix::ListMixed, Mix::MapMixed][(r % 6) as usize];
         let threads = [2usize, 3, 4, 8][rng.below(4) as usize];
         let mut ops = 50 + rng.below((max_ops.max(51) - 50) as u64) as usize;
@@ -482,13 +484,15 @@ pub fn run(seed: u64, rounds: u64, max_ops: usize, inject_yields: bool) -> Value
                     m.insert("ops".into(), json!(ops));
                     m.insert("round_seed".into(), json!(round_seed));
                 }
+                // after a deadlock the stuck threads keep their containers and stacks: the process is not reused
+                let stuck = f["rule"] == "no-progress";
                 faults.push(f);
-                if faults.len() >= 10 {
+                if stuck || faults.len() >= 10 {
                     break;
                 }
             }
         }
     }
     let stats: serde_json::Map<String, Value> = stats.into_iter().map(|(k, v)| (k, json!(v))).collect();
-    json!({"rounds": rounds, "events": events, "elements": elements, "schedule_points": CONTENDED.load(Ordering::Relaxed), "faults": faults, "stats": Value::Object(stats)})
+    json!({"rounds": rounds_run, "events": events, "elements": elements, "schedule_points": CONTENDED.load(Ordering::Relaxed), "faults": faults, "stats": Value::Object(stats)})
 }
